@@ -50,4 +50,34 @@ def exSet : List (List MOp) :=
 example : wfSet exSet = true := by decide
 example : (match resolve exSet with | .ok r => r.labels | .error _ => []) = [⟨4, 0, 0, false⟩, ⟨2, 1, 0, true⟩] := by decide
 
+/-- the successors `_get_edges__get_next_for` returns for item `i` at flow level `lv` (none on an exception) -/
+def nextForSuccs (opt : Bool) (items : List Item) (lv i : Nat) : List (Nat × Nat) :=
+  match nextFor [] opt 0 items ⟨items.map .item, []⟩ lv i with
+  | .ok (S, _) => S
+  | .error _ => []
+
+/-- a context op, a `Hold` directly behind it, a flow-ending op directly behind the `Hold`
+(`with (object 10) { hold; } end;`) -/
+def exHold : List Item :=
+  [.op ⟨0, "object", [.int 10]⟩, .op ⟨1, "Hold", []⟩, .op ⟨2, "End", []⟩]
+
+/-- **A `Hold` behind a context op has ONE fall-through successor**: behind a context op the flow continues at the
+next op anyway, so the `Hold` look-ahead (a flow-ending op directly behind the `Hold` is still visited) adds
+nothing - the successor `(lv, i+1)` is there exactly once, at every flow level (before the repair of
+`_get_edges__get_next_for` it was there twice, the `Hold` got two identical out-edges and the decompiler gave up on
+this routine). -/
+theorem nextFor_hold_once (lv : Nat) :
+    nextForSuccs true exHold lv 1 = [(lv, 2)] ∧ (nextForSuccs true exHold lv 1).count (lv, 2) = 1 := by
+  have h : nextForSuccs true exHold lv 1 = [(lv, 2)] := by
+    simp [nextForSuccs, nextFor, exHold, prevItem, realName, itemName, ESV.Gen.opsCtx, ESV.Gen.opsJumpGuaranteed,
+      ESV.Gen.opsEndFlow, ESV.Gen.op_hold]
+  rw [h]; simp
+
+example : nextForSuccs true exHold 0 1 = [(0, 2)] := by decide
+example : (nextForSuccs true exHold 0 1).count (0, 2) = 1 := by decide
+/-- the look-ahead itself is kept: without the context op in front, `End` behind the `Hold` is still reached, once -/
+example : nextForSuccs true [.op ⟨0, "foo", []⟩, .op ⟨1, "Hold", []⟩, .op ⟨2, "End", []⟩] 0 1 = [(0, 2)] := by decide
+/-- and a `Hold` whose successor does not end the flow has no successor when endings are optimized -/
+example : nextForSuccs true [.op ⟨0, "foo", []⟩, .op ⟨1, "Hold", []⟩, .op ⟨2, "foo", []⟩] 0 1 = [] := by decide
+
 end ESV.DecompFront
